@@ -77,6 +77,9 @@ def depth(tier):
     return 4
 
 
+DEEP = 5       # thorough: additionally all closed programs of <= 5 lines over the quick alphabet
+
+
 SHIFT_SPELL = ['3', '0x3', '0b11', 'S', 'S3', 'T', 't0', 'x3', 'zero', '0', '31', 'S31', '(S)', 'S + 1']
 
 
